@@ -70,3 +70,44 @@ _check_a = check
 def check(run):
     _check_a(run)
     check_b(run)
+
+
+# ---- obligation 2: name tables of xrayvars.c vs the header macros (constant tables, symbolic index, CBMC)
+def name_tables(run):
+    import re, os
+    from vlib.headers import macros, IUPAC_LINE
+    H = macros(run)
+    tabs = {}
+    def put(tab, idx, name): tabs.setdefault(tab, {})[idx] = name
+    for k, v in H.items():
+        if not isinstance(v, int): continue
+        if k.endswith('_LINE') and v < 0 and re.fullmatch(IUPAC_LINE, k[:-5]): put('LineName', -v - 1, k[:-5])
+        elif re.fullmatch(r'[KLMNOP]\d?_SHELL', k) and 0 <= v < H['SHELLNUM']: put('ShellName', v, k[:-6])
+        elif re.fullmatch(r'F[LM]P?\d\d_TRANS', k): put('TransName', v, 'F' + k[2:-6] if k[1] == 'L' else k[:-6])
+        elif k.endswith('_AUGER') and re.fullmatch(r'[KLM]\d?_[LMNOPQ]\d[LMNOPQ]\d_AUGER', k): put('AugerName', v, k[:-6].replace('_', '-', 1))
+        elif re.fullmatch(r'[KLM]\d?_SHELL', k) and 0 <= v < H['SHELLNUM_A']: put('AugerNameTotal', v, k[:-6] + '-TOTAL')
+    dims = {'LineName': H['LINENUM'], 'ShellName': H['SHELLNUM'], 'TransName': H['TRANSNUM'], 'AugerName': H['AUGERNUM'], 'AugerNameTotal': H['SHELLNUM_A']}
+    src = ['#include "vh.h"', '#include "xrayvars.h"']
+    for t, n in dims.items():
+        ent = tabs.get(t, {})
+        src.append('static const char exp_%s[%d][10] = {%s};' % (t, n, ', '.join('"%s"' % ent[i] if i in ent else '"?"' for i in range(n))))
+        src.append('''void harness_%s(void) { IN_UINT(i); ASSUME(i < %d);
+  if (exp_%s[i][0] != '?') { for (int k = 0; k < 9; k++) { CHECK(%s[i][k] == exp_%s[i][k], "%s[i] spells the header macro whose value maps to slot i"); if (exp_%s[i][k] == 0) break; } }
+  VH_END(); }''' % (t, n, t, t, t, t, t))
+    src.append('void harness_name_counts(void) { CHECK(sizeof(LineName_) , "x"); }' if False else '')
+    path = os.path.join(run.tmp, 'c01_names.c')
+    open(path, 'w').write('\n'.join(src))
+    missing = {t: [i for i in range(n) if i not in tabs.get(t, {})] for t, n in dims.items()}
+    thunks = []
+    for t, n in dims.items():
+        if run.only and not any(o in t for o in run.only): continue
+        thunks.append(lambda t=t, n=n: run.cbmc('C01/names/' + t, [path, run.src('xrayvars.c')], 'harness_' + t, unwind=10,
+            backends=('cadical', 'minisat'), functions=['xrayvars.c:' + t],
+            bounds='all %d slots (symbolic index); slots with no header macro: %s' % (n, missing[t][:5]),
+            what='%s[slot] is the spelling of the header macro that maps to the slot (the build-time readers match data records by these names)' % t))
+    run.parallel(thunks)
+
+_check_ab = check
+def check(run):
+    _check_ab(run)
+    name_tables(run)
